@@ -1175,4 +1175,182 @@ theorem formatMissing_spec (env : Env) (hind : IndentOk env.config)
   · rw [if_neg hsemi]
     exact formatMissingInner_spec env hind .plain pre snippet post hbig v hpos end_ hend
 
+/-! ## Consequences for the pieces -/
+
+/-- Every `Normal` slice is white space. -/
+def BlankSlices (items : List Slice) : Prop := ∀ s ∈ items, s.kind = .comment ∨ AllWs s.text
+
+theorem isBlankGap_iff (snippet : List Char) :
+    isBlankGap snippet = true ↔ ∃ items, commentCodeSlices? snippet = some items ∧ BlankSlices items := by
+  unfold isBlankGap BlankSlices
+  cases h : commentCodeSlices? snippet with
+  | none => simp
+  | some items =>
+    simp only [List.all_eq_true, Bool.or_eq_true, beq_iff_eq, Option.some.injEq, exists_eq_left']
+    constructor
+    · intro hh s hs
+      rcases hh s hs with h1 | h1
+      · exact Or.inl h1
+      · exact Or.inr (fun c hc => h1 c hc)
+    · intro hh s hs
+      rcases hh s hs with h1 | h1
+      · exact Or.inl h1
+      · exact Or.inr (fun c hc => h1 c hc)
+
+/-- A piece that is neither code nor a comment is white space. -/
+def PieceBlank (q : Piece) : Prop := q.tag ≠ .code ∧ (q.tag ≠ .comment → AllWs q.text)
+
+theorem BlankPieces.pieceBlank {l : List Piece} (h : BlankPieces l) : ∀ q ∈ l, PieceBlank q := by
+  intro q hq
+  obtain ⟨h1, h2⟩ := h q hq
+  exact ⟨by rw [h1]; decide, fun _ => h2⟩
+
+theorem CommentMid.pieceBlank {env : Env} {sub : List Char} {mid : List Piece}
+    (h : CommentMid env sub mid) : ∀ q ∈ mid, PieceBlank q := by
+  cases h with
+  | whole sh => intro q hq; simp at hq; subst hq; exact ⟨by simp, fun h => absurd rfl h⟩
+  | raw t _ _ => intro q hq; simp at hq; subst hq; exact ⟨by simp, fun h => absurd rfl h⟩
+  | split first rest other nl sh _ _ _ hnl =>
+    intro q hq; simp at hq
+    rcases hq with rfl | rfl | rfl
+    · exact ⟨by simp, fun h => absurd rfl h⟩
+    · exact ⟨by simp, fun _ => hnl⟩
+    · exact ⟨by simp, fun h => absurd rfl h⟩
+
+theorem LastOut.pieceBlank {o : List Piece} (h : LastOut o) : ∀ q ∈ o, PieceBlank q := by
+  obtain ⟨t, bl, rfl, ht, hbl⟩ := h
+  intro q hq
+  rcases List.mem_cons.mp hq with rfl | hq
+  · exact ⟨by simp, fun _ => ht⟩
+  · exact hbl.pieceBlank q hq
+
+/-- In a gap of white space and comments, nothing but comments and white space is pushed. -/
+theorem LoopOut.pieceBlank {env : Env} : ∀ {items : List Slice} {lo : List Piece},
+    LoopOut env items lo → BlankSlices items → ∀ q ∈ lo, PieceBlank q
+  | _, _, .nil, _ => by intro q hq; simp at hq
+  | _, _, .cons sl rest o os hstep hrest, hb => by
+    intro q hq
+    rcases List.mem_append.mp hq with h | h
+    · cases hstep with
+      | comment _ _ hout =>
+        obtain ⟨pre, mid, post, rfl, hpre, hmid, hpost⟩ := hout
+        rcases List.mem_append.mp h with h | h
+        · rcases List.mem_append.mp h with h | h
+          · exact hpre.pieceBlank q h
+          · exact hmid.pieceBlank q h
+        · exact hpost.pieceBlank q h
+      | vspace t _ _ ht =>
+        simp at h; subst h
+        obtain ⟨k, rfl⟩ := ht
+        exact ⟨by simp, fun _ => allWs_replicate _ _ isWs_nl⟩
+      | code _ hk _ hnone =>
+        rcases hb sl (by simp) with h1 | h1
+        · rw [hk] at h1; cases h1
+        · rw [hnone h1] at h; simp at h
+    · exact LoopOut.pieceBlank hrest (fun s hs => hb s (by simp [hs])) q h
+
+/-- The texts of the comment pieces, in order. -/
+def commentPieces (o : List Piece) : List (List Char) :=
+  (o.filter (fun q => q.tag == .comment)).map (·.text)
+
+theorem commentPieces_append (a b : List Piece) :
+    commentPieces (a ++ b) = commentPieces a ++ commentPieces b := by
+  simp [commentPieces]
+
+theorem commentPieces_of_none {o : List Piece} (h : ∀ q ∈ o, q.tag ≠ .comment) : commentPieces o = [] := by
+  unfold commentPieces
+  rw [List.filter_eq_nil_iff.mpr]; · rfl
+  intro q hq; simpa using h q hq
+
+theorem BlankPieces.noComment {l : List Piece} (h : BlankPieces l) : commentPieces l = [] :=
+  commentPieces_of_none (fun q hq => by rw [(h q hq).1]; decide)
+
+theorem LastOut.noComment {o : List Piece} (h : LastOut o) : commentPieces o = [] := by
+  obtain ⟨t, bl, rfl, _, hbl⟩ := h
+  apply commentPieces_of_none
+  intro q hq
+  rcases List.mem_cons.mp hq with rfl | hq
+  · simp
+  · rw [(hbl q hq).1]; decide
+
+/-- The comment slices, in order. -/
+def commentSlices (items : List Slice) : List (List Char) :=
+  (items.filter (fun s => s.kind == .comment)).map (·.text)
+
+/-- Below style edition 2024 the comment pieces are the comment slices, each as `rewrite_comment`
+returned it for some shape (or as written where it failed), exactly once and in order. -/
+theorem LoopOut.comments {env : Env} (hed : env.ed2024 = false) : ∀ {items : List Slice}
+    {lo : List Piece}, LoopOut env items lo →
+    ∃ shapes : List Shape, shapes.length = (commentSlices items).length ∧
+      commentPieces lo = List.zipWith (fun c sh => rcOr env c sh) (commentSlices items) shapes := by
+  intro items lo h
+  induction h with
+  | nil => exact ⟨[], rfl, rfl⟩
+  | cons sl rest o os hstep hrest ih =>
+    obtain ⟨shapes, hlen, hzip⟩ := ih
+    rw [commentPieces_append]
+    cases hstep with
+    | comment _ hk hout =>
+      obtain ⟨pre, mid, post, rfl, hpre, hmid, hpost⟩ := hout
+      have hs : commentSlices (sl :: rest) = sl.text :: commentSlices rest := by
+        simp [commentSlices, hk]
+      rw [hs, commentPieces_append, commentPieces_append, hpre.noComment, hpost.noComment]
+      cases hmid with
+      | whole sh =>
+        refine ⟨sh :: shapes, by simp [hlen], ?_⟩
+        simp only [commentPieces, List.nil_append, List.append_nil] at hzip ⊢
+        simp [hzip]
+      | raw t h24 _ => rw [hed] at h24; cases h24
+      | split first rest' other nl sh h24 _ _ _ => rw [hed] at h24; cases h24
+    | vspace t hk _ _ =>
+      have hs : commentSlices (sl :: rest) = commentSlices rest := by simp [commentSlices, hk]
+      rw [hs]
+      exact ⟨shapes, hlen, by simpa [commentPieces] using hzip⟩
+    | code _ hk htags _ =>
+      have hs : commentSlices (sl :: rest) = commentSlices rest := by simp [commentSlices, hk]
+      rw [hs, commentPieces_of_none]
+      · exact ⟨shapes, hlen, by simpa using hzip⟩
+      · intro q hq
+        rcases htags q hq with h | h
+        · rw [h]; decide
+        · rw [h.1]; decide
+
+/-! ## The oracles -/
+
+/-- In a gap of white space and comments the non-blank characters are those of the comments. -/
+theorem blankSlices_squeeze : ∀ (items : List Slice), BlankSlices items →
+    squeeze (items.flatMap (·.text)) = ((commentSlices items).map squeeze).flatten
+  | [], _ => rfl
+  | s :: rest, h => by
+    have ih := blankSlices_squeeze rest (fun x hx => h x (by simp [hx]))
+    simp only [List.flatMap_cons, squeeze_append, ih]
+    cases hk : s.kind with
+    | comment => simp [commentSlices, hk]
+    | normal =>
+      rcases h s (by simp) with h1 | h1
+      · rw [hk] at h1; cases h1
+      · rw [squeeze_of_allWs h1]; simp [commentSlices, hk]
+
+theorem startsWith_append : ∀ (x r : List Char), startsWith (x ++ r) x = true
+  | [], r => by cases r <;> rfl
+  | c :: cs, r => by simp [startsWith, startsWith_append cs r]
+
+theorem dropThrough_prefix (x r : List Char) : dropThrough x (x ++ r) = some r := by
+  cases h : x ++ r with
+  | nil =>
+    have hx : x = [] := (List.append_eq_nil_iff.mp h).1
+    have hr : r = [] := (List.append_eq_nil_iff.mp h).2
+    subst hx hr; rfl
+  | cons c cs =>
+    unfold dropThrough
+    rw [← h, startsWith_append]
+    simp
+
+theorem occursInOrder_flatten : ∀ (xs : List (List Char)) (r : List Char),
+    occursInOrder xs (xs.flatten ++ r) = true
+  | [], _ => rfl
+  | x :: xs, r => by
+    simp only [List.flatten_cons, List.append_assoc, occursInOrder, dropThrough_prefix]
+    exact occursInOrder_flatten xs r
+
 end RF.Lemmas.Missed
